@@ -187,13 +187,14 @@ def sigma_filter(filename, region, step_size, box_size, shape, domask,
             logging.error("fix your file to be more sane")
             raise Exception("Too many NAXIS")
 
+    # force float64 for consistency
+    # (and so that integer images can be scaled)
+    data = data.astype(np.float64)
+
     # Manually scale the data if BSCALE is not 1.0
     header = fits.getheader(filename)
     if 'BSCALE' in header:
         data *= header['BSCALE']
-
-    # force float64 for consistency
-    data = data.astype(np.float64)
 
     # row_len = shape[1]
 
